@@ -168,23 +168,27 @@ func c14Popular(r *vReport, idx *int64) {
 // ---- (2) local actions
 
 type c14In struct {
-	name          string
-	required, def bool
+	name     string
+	required bool
+	def      bool
+	defText  string // as written after "default: "
 }
 
 func c14LocalActions(t *testing.T, r *vReport, idx *int64, root string) {
 	states := []struct {
 		present, required, def bool
-	}{{false, false, false}, {true, false, false}, {true, true, false}, {true, true, true}, {true, false, true}}
+		defText                string
+	}{{false, false, false, ""}, {true, false, false, ""}, {true, true, false, ""}, {true, true, true, "x"}, {true, false, true, "x"}, {true, true, true, "''"}, {true, true, true, "false"}}
 	names := []string{"alpha", "Beta", "gamma"}
-	for combo := 0; combo < 125; combo++ {
+	nst := len(states)
+	for combo := 0; combo < nst*nst*nst; combo++ {
 		var ins []c14In
 		x := combo
 		for i := 0; i < 3; i++ {
-			st := states[x%5]
-			x /= 5
+			st := states[x%nst]
+			x /= nst
 			if st.present {
-				ins = append(ins, c14In{names[i], st.required, st.def})
+				ins = append(ins, c14In{names[i], st.required, st.def, st.defText})
 			}
 		}
 		for nout := 0; nout <= 2; nout++ {
@@ -205,7 +209,7 @@ func c14LocalActions(t *testing.T, r *vReport, idx *int64, root string) {
 						a.WriteString("    required: true\n")
 					}
 					if in.def {
-						a.WriteString("    default: x\n")
+						a.WriteString("    default: " + in.defText + "\n")
 					}
 				}
 			}
@@ -313,6 +317,7 @@ func c01LintFileCopy(dir, path string) (res vLintResult) {
 type c14WfIn struct {
 	name, typ     string
 	required, def bool
+	defText       string
 }
 
 func c14Assignable(typ, value string) bool {
@@ -354,16 +359,17 @@ func c14Workflows(t *testing.T, r *vReport, idx *int64, root string) {
 		present       bool
 		typ           string
 		required, def bool
+		defText       string
 	}
 	ists := []ist{{}}
+	defaults := map[string]string{"string": "x", "number": "1", "boolean": "true"}
 	for _, ty := range []string{"string", "number", "boolean"} {
 		for _, rq := range []bool{false, true} {
-			for _, df := range []bool{false, true} {
-				ists = append(ists, ist{true, ty, rq, df})
-			}
+			ists = append(ists, ist{true, ty, rq, false, ""}, ist{true, ty, rq, true, defaults[ty]})
 		}
 	}
-	defaults := map[string]string{"string": "x", "number": "1", "boolean": "true"}
+	// falsy / empty defaults still are defaults
+	ists = append(ists, ist{true, "string", true, true, "''"}, ist{true, "number", true, true, "0"}, ist{true, "boolean", true, true, "false"})
 	secretSets := [][]struct {
 		name     string
 		required bool
@@ -418,7 +424,7 @@ func c14Workflows(t *testing.T, r *vReport, idx *int64, root string) {
 					var ins []c14WfIn
 					for k, st := range []ist{ists[a], ists[b]} {
 						if st.present {
-							ins = append(ins, c14WfIn{[]string{"InOne", "intwo"}[k], st.typ, st.required, st.def})
+							ins = append(ins, c14WfIn{[]string{"InOne", "intwo"}[k], st.typ, st.required, st.def, st.defText})
 						}
 					}
 					var c strings.Builder
@@ -431,7 +437,7 @@ func c14Workflows(t *testing.T, r *vReport, idx *int64, root string) {
 								c.WriteString("        required: true\n")
 							}
 							if in.def {
-								c.WriteString("        default: " + defaults[in.typ] + "\n")
+								c.WriteString("        default: " + in.defText + "\n")
 							}
 						}
 					}
@@ -612,7 +618,7 @@ func upperAll(ss []string) []string {
 func TestVerifC14(t *testing.T) {
 	r := vNewReport("C14")
 	defer r.Write(t)
-	r.Extra["rule"] = "every spec of the bundled popular-actions table x call sites {none, required, all, required minus each, one extra, re-cased} with references to every declared and one undeclared output; 125 local action interfaces (3 inputs over absent/optional/required/required+default/optional+default) x 0-2 outputs x every subset of declared inputs + extra + re-cased; 169 reusable-workflow input interfaces (2 inputs over absent | type x required x default) x 3 secret sets x 0-1 outputs x 6+ call sites (none, required, all re-cased, extra input, extra secret, inherit, minus each), interface derived from the file and from the AST (callee linted first in the same run); 3 types x 12 typed values. oracle = set arithmetic on the declared interface. class = (family, call site, expected report counts); non-trivial = something must be reported"
+	r.Extra["rule"] = "every spec of the bundled popular-actions table x call sites {none, required, all, required minus each, one extra, re-cased} with references to every declared and one undeclared output; 343 local action interfaces (3 inputs over absent/optional/required/required+default/optional+default/required+empty default/required+falsy default) x 0-2 outputs x every subset of declared inputs + extra + re-cased; 256 reusable-workflow input interfaces (2 inputs over absent | type x required x default incl. empty and falsy defaults) x 3 secret sets x 0-1 outputs x 6+ call sites (none, required, all re-cased, extra input, extra secret, inherit, minus each), interface derived from the file and from the AST (callee linted first in the same run); 3 types x 12 typed values. oracle = set arithmetic on the declared interface. class = (family, call site, expected report counts); non-trivial = something must be reported"
 	r.Extra["assumptions"] = []string{"for bundled actions the table itself is the declaration (its content is not frozen)", "assignability per docs/checks.md: string <- string|number, number <- number, boolean <- anything, anything <- any"}
 	root := vTempDir(t, "c14-")
 	if raw := vReplayInput(); raw != nil {
